@@ -178,10 +178,9 @@ func c16Record(tier string, seed int64, emit func(interface{})) {
 			for x := 0; x < rng.Intn(5); x++ {
 				iso = append(iso, word(7, letters+"0123456789"))
 			}
+			longRef := ""
 			if i%5 == 1 && j == k/2 { // one very long line in the middle of the listing: beyond any fixed line buffer
-				for x := 0; x < 12000; x++ {
-					iso = append(iso, word(7, letters+"0123456789"))
-				}
+				longRef = strings.Repeat("Anon. J. Irreproducible Results 1:1-2 (1999). ", 1600)
 			}
 			comm := ""
 			if len(codes) > 0 {
@@ -191,7 +190,7 @@ func c16Record(tier string, seed int64, emit func(interface{})) {
 			}
 			lines = append(lines, "<1>"+name, "<2>"+strings.Join(iso, ","), "<3>"+opt(word(10, "ACGTRYNKMSW^")+"("+fmt.Sprint(rng.Intn(20))+"/"+fmt.Sprint(rng.Intn(20))+")"),
 				"<4>"+opt("?("+fmt.Sprint(4+rng.Intn(3))+")"), "<5>"+opt(word(30, letters+" .")), "<6>"+opt(word(20, letters+" .,")), "<7>"+comm,
-				"<8>"+opt(word(80, letters+" .,()-:0123456789")))
+				"<8>"+longRef+opt(word(80, letters+" .,()-:0123456789")))
 			if rng.Intn(3) == 0 { // further reference lines, which are not part of the first reference
 				lines = append(lines, word(60, letters+" .,()"))
 			}
